@@ -5,6 +5,7 @@ import Gmars.Proofs.Abs
 import Gmars.Proofs.SpecRotate
 import Gmars.Proofs.Sched
 import Gmars.Proofs.ApiRel
+import Gmars.Proofs.ReuseRotate
 
 namespace Gmars.Props.C12
 open Gmars Gmars.Spec
@@ -123,5 +124,23 @@ theorem model_run_rotate {s₁ s₂ : Sim} {a : Api} (k : Nat) (ha : a.WFs)
   refine ⟨s₁', s₂', e₁, e₂, rel₁, rel₂, ?_⟩
   rw [res₁, res₂]
   simp [rotApi, rotSW, List.map_map, Function.comp_def]
+
+/-- `reuse_rotate` — the rotated battle may be played in a REUSED simulator: whatever a simulator
+    went through before (any reachable state `s`, related to any reference state `a`), after
+    `Reset` it satisfies every premise `model_spawn_rotate` and `model_run_rotate` ask of the
+    shifted battle `s₂`, for EVERY shift `k`, against a freshly created reference simulator with
+    the same warriors — nothing of the earlier battle (stale cells, queues, block bookkeeping)
+    may survive. (A fresh reference state is its own rotation: `rotApi_fresh`.) -/
+theorem reuse_rotate {s : Sim} {a : Api} (k : Nat) (p : Pre s) (hs : StartsOK s)
+    (h : Rel s a) (hd : DataRel s a) :
+    Pre s.reset ∧ StartsOK s.reset ∧
+    Rel s.reset (rotApi k (Spec.Api.freshWith a.M a.R a.W a.P a.C a.sig)) ∧
+    DataRel s.reset (rotApi k (Spec.Api.freshWith a.M a.R a.W a.P a.C a.sig)) :=
+  reset_serves_as_rotated k p hs h hd
+
+/-- a fresh reference simulator is invariant under rotation -/
+theorem fresh_is_its_rotation (k M R W P C : Nat) (sig : List (List SInstr × Nat)) :
+    rotApi k (Spec.Api.freshWith M R W P C sig) = Spec.Api.freshWith M R W P C sig :=
+  rotApi_fresh k M R W P C sig
 
 end Gmars.Props.C12
